@@ -43,28 +43,106 @@ def table(repo, build_dir, variant="asan"):
             if fd and fd["ret"].strip() == "int":
                 E.add(g)
                 work.append(g)
+    # failure values of every member of E, from its return statements (1 = success by the library's convention)
+    memo = {}
+
+    def values(f, stack=()):
+        if f in memo:
+            return memo[f]
+        fd = fdefs.get(f)
+        if fd is None or "rets" not in fd or f in stack:
+            return {"?"}
+        out = set()
+
+        def dv(d, depth=0):
+            if d["k"] == "int":
+                return {d["v"]}
+            if d["k"] == "call" and d.get("f"):
+                return values(d["f"], stack + (f,))
+            if d["k"] == "var" and depth < 3:
+                asg = fd.get("vassign", {}).get(d["n"])
+                if not asg:
+                    return {"?"}
+                r = set()
+                for a in asg:
+                    r |= dv(a, depth + 1)
+                return r
+            return {"?"}
+        for d in fd["rets"]:
+            out |= dv(d)
+        if not stack:
+            memo[f] = out
+        return out
+
+    def fails_of(f):
+        v = values(f)
+        out = {x for x in v if x != "?" and x != 1}
+        if "?" in v:
+            out |= {0, -1}
+        return sorted(out)
+
+    stats["failure_values"] = {f: fails_of(f) for f in sorted(E)}
     rows = []
     for c in allcalls:
         if c["callee"] in E:
             rows.append({"file": os.path.basename(c["file"]), "fn": c["func"] or "?", "callee": c["callee"], "line": c["line"],
-                         "used": bool(c["used"]), "how": c["how"]})
+                         "used": bool(c["used"]), "how": c["how"], "tests": c.get("tests", []), "fails": stats["failure_values"][c["callee"]]})
     rows.sort(key=lambda r: (r["file"], r["line"], r["callee"]))
     # void functions that call into E cannot report the failure at all: listed as unused sites already
     # (their own call of the E member is a row); additionally record them for the evidence
     stats["E"] = sorted(E)
+    stats["fdefs"] = fdefs
+    stats["callers"] = callers
+    hd = set()
+    for r in recs:
+        hd |= set(r.get("header_decls", []))
+    stats["header_decls"] = hd
     stats["void_callers"] = sorted({c["func"] for c in allcalls if c["callee"] in E and c["func"] in fdefs and fdefs[c["func"]]["ret"].strip() == "void"})
     return rows, stats
 
 
+CMPS = {"==": "Ceq", "!=": "Cne", "<": "Clt", "<=": "Cle", ">": "Cgt", ">=": "Cge"}
+
+
+def coq_test(t):
+    if t.startswith("cmp:"):
+        _, op, v = t.split(":")
+        return "TCmp %s (%s)%%Z" % (CMPS[op], v)
+    return {"not": "TNot", "truth": "TTruth", "returned": "TReturned"}.get(t) or ("TOther %s" % cast.coq_str(t))
+
+
+def py_distinguishes(t, v):
+    """mirror of Sys/Tables.v distinguishes (only used to cross-check the row count Coq reports)"""
+    def ev(t, x):
+        if t.startswith("cmp:"):
+            _, op, c = t.split(":"); c = int(c)
+            return {"==": x == c, "!=": x != c, "<": x < c, "<=": x <= c, ">": x > c, ">=": x >= c}[op]
+        if t == "not":
+            return x == 0
+        if t == "truth":
+            return x != 0
+        return None
+    if t == "returned":
+        return True
+    if ev(t, 1) is None:
+        return False
+    return ev(t, v) != ev(t, 1)
+
+
+def py_site_ok(r):
+    return bool(r["used"]) and all(any(py_distinguishes(t, v) for t in r["tests"]) for v in r["fails"])
+
+
 def emit(rows, path=None):
     out = ["(* GENERATED by tools/rand_sites.py from the current source tree — do not edit. *)",
-           "From Coq Require Import String List NArith.", "From GmVerif Require Import Sys.Tables.",
+           "From Coq Require Import String List NArith ZArith.", "From GmVerif Require Import Sys.Tables.",
            "Import ListNotations.", "Open Scope string_scope.", "",
            "Definition rand_sites : list rand_site := ["]
     items = []
     for r in rows:
-        items.append("  mkSite %s %s %s %d%%N %s %s" % (cast.coq_str(r["file"]), cast.coq_str(r["fn"]), cast.coq_str(r["callee"]), r["line"],
-                                                       cast.coq_bool(r["used"]), cast.coq_str(r["how"])))
+        items.append("  mkSite %s %s %s %d%%N %s %s [%s] [%s]" % (cast.coq_str(r["file"]), cast.coq_str(r["fn"]), cast.coq_str(r["callee"]), r["line"],
+                     cast.coq_bool(r["used"]), cast.coq_str(r["how"]), "; ".join(coq_test(t) for t in r["tests"]),
+                     "; ".join("(%d)%%Z" % v for v in r["fails"])))
     out.append(";\n".join(items))
     out.append("].")
     text = "\n".join(out) + "\n"
@@ -79,8 +157,9 @@ if __name__ == "__main__":
     build = os.environ.get("VERIF_BUILD", "/verif/build")
     rows, st = table(repo, build)
     emit(rows, os.path.join(os.path.dirname(os.path.dirname(os.path.abspath(__file__))), "coq", "Gen", "RandSitesTable.v"))
-    print({k: st[k] for k in ("files", "cached", "parsed")}, len(st["E"]), "functions in E;", len(rows), "sites;", sum(1 for r in rows if not r["used"]), "unused")
+    print({k: st[k] for k in ("files", "cached", "parsed")}, len(st["E"]), "functions in E;", len(rows), "sites;", sum(1 for r in rows if not py_site_ok(r)), "not ok")
+    print({f: v for f, v in st["failure_values"].items() if v != [-1]})
     print("void callers:", st["void_callers"])
     for r in rows:
-        if not r["used"]:
-            print("%s:%d %s -> %s (%s)" % (r["file"], r["line"], r["fn"], r["callee"], r["how"]))
+        if not py_site_ok(r):
+            print("%s:%d %s -> %s (%s) tests=%s fails=%s" % (r["file"], r["line"], r["fn"], r["callee"], r["how"], r["tests"], r["fails"]))
